@@ -507,15 +507,39 @@ func (b *Branch) Connect(ctx context.Context, store storage.Storage,
 		return nil, ErrNotAncestor
 	}
 
-	result, err := NewBranch(parent, parentHeight, b.firstHeader)
+	// The first headers of this branch can already be contained in the branches it is being
+	// connected to, because a new main branch is built through every branch between the longest
+	// and the oldest. Connect above those headers so that no header is held by two branches and no
+	// two branches start with the same header (branch files are named by their first header).
+	skip := 0
+	for skip < len(b.headers) {
+		found := false
+		for _, branch := range branches {
+			if height := branch.Find(b.headers[skip].Hash); height != -1 {
+				parent = branch
+				parentHeight = height
+				found = true
+				break
+			}
+		}
+		if !found {
+			break
+		}
+		skip++
+	}
+
+	if skip == len(b.headers) {
+		return nil, nil // fully contained in the other branches
+	}
+
+	result, err := NewBranch(parent, parentHeight, b.headers[skip].Header)
 	if err != nil {
 		return nil, errors.Wrap(err, "new branch")
 	}
 
 	// Add headers after branch
 	height := parentHeight + 2
-	startOffset := height - b.PrunedLowestHeight()
-	for _, header := range b.headers[startOffset:] {
+	for _, header := range b.headers[skip+1:] {
 		result.add(header, height)
 		height++
 	}
